@@ -947,6 +947,22 @@ def r_load_factor(F, V):
 
 # --------------------------------------------------------------------- R-ERASE-WINDOW
 
+def _fold_key(k):
+    """value of an expr_key made of integer constants and + - * only (None otherwise)"""
+    import re as _re
+    k = k[:-2] if k.endswith(".0") else k
+    m = _re.match(r"^c:(\d+):[iu](size|\d+)$", k)
+    if m:
+        return int(m.group(1))
+    sp = _split_top(k)
+    if sp and sp[0] in ("Add", "Sub", "Mul") and len(sp[1]) == 2:
+        a, b = _fold_key(sp[1][0]), _fold_key(sp[1][1])
+        if a is None or b is None:
+            return None
+        return {"Add": a + b, "Sub": a - b, "Mul": a * b}[sp[0]]
+    return None
+
+
 def r_erase_window(F, V):
     """erase() may turn the slot back into EMPTY only if no probe sequence can have passed over it while it was full, i.e. if
     the run of non-EMPTY bytes around it is shorter than a group: DELETED exactly when
@@ -977,6 +993,11 @@ def r_erase_window(F, V):
         if t["k"] != "switch" or t["discr"]["k"] not in ("copy", "move"):
             continue
         d = b.single_def(t["discr"]["p"]["l"])
+        for _ in range(6):   # look through plain copies (e.g. the return slot of an inlined helper)
+            if d and d[0] == "stmt" and d[3]["rv"]["k"] == "use" and d[3]["rv"]["op"]["k"] in ("copy", "move") and not d[3]["rv"]["op"]["p"].get("proj"):
+                d = b.single_def(d[3]["rv"]["op"]["p"]["l"])
+            else:
+                break
         if not d or d[0] != "stmt" or d[3]["rv"]["k"] != "binop" or d[3]["rv"]["op"] not in ("Ge", "Gt", "Le", "Lt"):
             continue
         rv = d[3]["rv"]
@@ -992,6 +1013,7 @@ def r_erase_window(F, V):
         if not od or od[0] != "stmt" or od[3]["rv"]["k"] != "binop" or not od[3]["rv"]["op"].startswith("Add"):
             continue
         parts = []
+        idx_keys = []
         for o in (od[3]["rv"]["a"], od[3]["rv"]["b"]):
             pd = b.single_def(o["p"]["l"]) if o["k"] in ("copy", "move") else None
             parts.append((callee_path(pd[3]) or "").split("::")[-1] if pd and pd[0] == "call" else "?")
@@ -1008,6 +1030,7 @@ def r_erase_window(F, V):
                     if dd[0] == "call":
                         if (callee_path(dd[3]) or "").endswith("RawTableInner::ctrl"):
                             idx = cls(b, dd[3]["args"][1])
+                            idx_keys.append((parts[-1] if isinstance(parts[-1], str) else parts[-1][0], expr_key(b, dd[3]["args"][1])))
                             break
                         if not dd[3]["args"]:
                             break
@@ -1034,6 +1057,24 @@ def r_erase_window(F, V):
                 if not okrel:
                     probs.append("the slot becomes DELETED when the run of non-EMPTY bytes `%s %d` instead of `>= %d` (Group::WIDTH): with a run of exactly one group width a probe may have passed over the slot, "
                                  "so marking it EMPTY cuts that probe chain (a present key is reported absent)" % ({"Ge": ">=", "Gt": ">", "Le": "<=", "Lt": "<"}[rel], C, W))
+        # the group before starts exactly one group width earlier: (index - WIDTH) & bucket_mask
+        import re as _re
+        for nm_, kx in idx_keys:
+            if nm_ == "leading_zeros":
+                m_ = _re.match(r"^BitAnd\((?:[A-Za-z_:]*wrapping_sub|Sub)\((a\d+),c:(\d+):usize\)(?:\.0)?,[^,()]*bucket_mask\)$", kx)
+                if not m_:
+                    # the distance written as a constant expression (e.g. WIDTH + 1): fold it
+                    sp_ = _split_top(kx)
+                    if sp_ and sp_[0] == "BitAnd" and len(sp_[1]) == 2:
+                        inner_ = _split_top(sp_[1][0])
+                        if inner_ and (inner_[0].endswith("wrapping_sub") or inner_[0] == "Sub") and len(inner_[1]) == 2:
+                            dist = _fold_key(inner_[1][1])
+                            if dist is not None and dist != W:
+                                probs.append("the group inspected before the slot starts %d positions earlier instead of Group::WIDTH (%d): the run of non-EMPTY bytes around the slot is mis-measured, "
+                                             "so a slot inside a full window can be marked EMPTY (cutting a probe chain)" % (dist, W))
+                if m_ and int(m_.group(2)) != W:
+                    probs.append("the group inspected before the slot starts %s positions earlier instead of Group::WIDTH (%d): the run of non-EMPTY bytes around the slot is mis-measured, "
+                                 "so a slot inside a full window can be marked EMPTY (cutting a probe chain)" % (m_.group(2), W))
         names = sorted(str(x) for x in parts)
         lz = [x for x in parts if isinstance(x, tuple) and x[0] == "leading_zeros"]
         tz = [x for x in parts if isinstance(x, tuple) and x[0] == "trailing_zeros"]
@@ -1112,7 +1153,13 @@ def r_probe_index(F, V):
             if s["k"] == "assign" and s["rv"]["k"] == "binop" and s["rv"]["op"] == "BitAnd":
                 ka, kb = expr_key(b, s["rv"]["a"]), expr_key(b, s["rv"]["b"])
                 if ka.endswith(".bucket_mask") or kb.endswith(".bucket_mask"):
-                    masked.append((s, kb if ka.endswith(".bucket_mask") else ka, ka if ka.endswith(".bucket_mask") else kb))
+                    val_ = kb if ka.endswith(".bucket_mask") else ka
+                    # the advance of the probe position itself (`pos = (pos + stride) & mask`, ProbeSeq::move_next possibly
+                    # inlined here) is R-PROBE-STEP's business, not an index computation
+                    lfp = last_field(s["p"])
+                    if (lfp and lfp.get("name") == "pos") or ".stride" in val_:
+                        continue
+                    masked.append((s, val_, ka if ka.endswith(".bucket_mask") else kb))
         key = p + "|index"
         if not masked:
             R.violation(key, b, "%s does not reduce its bucket index by `& self.bucket_mask`" % p)
